@@ -518,6 +518,7 @@ def run(tier: str, replay: str | None = None):
                     corr.append((case_in, {"why": why, "impl": {"codes": r["codes"], "names": r["names"], "inferred": str(r["inferred"])},
                                            "model": {"kinds": sorted(m["kinds"]), "args": sorted(m["args"]), "ret": uni.show(m["ret"])}}))
         except RuntimeError as ex:
+            _cleanup_cases("c06")
             rep.violation({"kind": "broken-correspondence", "correspondence": "Call.Model.check_call vs NameCheckVisitor on generated modules", "detail": str(ex)[-1500:]}, no_failing_input=True)
 
     import os
@@ -565,3 +566,16 @@ def run(tier: str, replay: str | None = None):
         ["Coq 8.16.1 kernel", "translator harness/translate/solve.py", "atom/object table dumps harness/c15_universe.py, c06_universe.py",
          "CPython (inspect.signature.bind, isinstance, executing the call) as oracle", "correspondence harness/c06.py"],
     )
+
+
+def _cleanup_cases(name):
+    """lib.coq_eval leaves its case files behind when an evaluation fails; remove this run's."""
+    import os
+
+    d = lib.COQ / "cases"
+    if d.is_dir():
+        for f in list(d.glob(f"{name}_{os.getpid()}_*")) + list(d.glob(f".{name}_{os.getpid()}_*")):
+            try:
+                f.unlink()
+            except OSError:
+                pass
